@@ -335,12 +335,13 @@ class XSCollection:
            ones in `attributesToIgnore` are None.
         3. Libraries are already merged if all attributes in the other library are None (This is nothing to merge!).
         """
+        # higher-order scatter matrices are held in a dict: nothing is assigned when it is empty
         attributesToIgnore = ["source", HIGHORDER_SCATTER]
-        if all(
+        if not self.higherOrderScatter and all(
             v is None for k, v in self.__dict__.items() if k not in attributesToIgnore
         ):
             self.__dict__.update(other.__dict__)  # See note 2
-        elif all(
+        elif not other.higherOrderScatter and all(
             v is None for k, v in other.__dict__.items() if k not in attributesToIgnore
         ):
             pass  # See note 3
